@@ -113,6 +113,9 @@ def run_family(ctx, family, cases, cfgs, known, *, tier_name, env=None, allowed_
                 nerr += 1
         if any(is_nontrivial(x) for x in o["outs"]):
             nontriv.add(case_hash(byid[o["id"]]))
+    if corpus and os.environ.get("VERIF_LEARN") and ctx.tier == "thorough" and not envname:
+        ctx.cov.setdefault("_learn_fams", []).append(family)
+        ctx.cov.setdefault("_learned", {})
     fam = ctx.cov.setdefault("families", {})
     fam[f"{tier_name}:{family}"] = {"cases": len(cases), "configs": [c["name"] for c in cfgs], "answers": nrows, "errors": nerr,
                                     "rejected_outcomes": len(rej)}
@@ -125,6 +128,8 @@ def run_family(ctx, family, cases, cfgs, known, *, tier_name, env=None, allowed_
         replay = {"kind": "sql", "family": family, "case": c, "cfg": cfgs[r["cfg"]], "env": env or {}, "label": lab,
                   "got": r["out"], "want_example": r["want"]}
         listed = known.get(family, {}).get(h, {}).get(cfgname)
+        if os.environ.get("VERIF_LEARN"):
+            listed = None                      # dev-time learning re-derives the whole list
         if corpus and listed is not None and all(ctx.is_known(f) for f in fids_of(ctx.pid, listed)):
             for f in fids_of(ctx.pid, listed):
                 ctx.known(f, {"sql": c["sql"][:200], "cfg": cfgname, "hash": h})
@@ -149,10 +154,14 @@ def run_family(ctx, family, cases, cfgs, known, *, tier_name, env=None, allowed_
 
 def finish_cov(ctx, rule):
     learned = ctx.cov.pop("_learned", None)
+    if not os.environ.get("VERIF_LEARN"):
+        ctx.cov.pop("_learn_fams", None)
     if learned is not None and os.environ.get("VERIF_LEARN"):
         os.makedirs(FIND, exist_ok=True)
         path = os.path.join(FIND, ctx.pid + ".json")
         cur = json.load(open(path)) if os.path.exists(path) else {}
+        for fam in ctx.cov.pop("_learn_fams", []):
+            cur[fam] = {}                       # a re-learned family replaces its old list
         for fam, d in learned.items():
             cur.setdefault(fam, {}).update(d)
         json.dump(cur, open(path, "w"), indent=0, sort_keys=True)
